@@ -72,7 +72,7 @@ func (w *World) monitorRequests() {
 			op := a.spec.Ops[a.pc]
 			if op.Kind == "ping" && w.pingVanished(a) {
 				w.Violate("C11", "ping-callback-vanished", "%s op %d (ping) waits for ever after another Ping left through its error/quit path during this call (slot emptied unconditionally)", a.spec.Name, a.pc)
-			} else if op.Kind != "online" && op.Kind != "offline" {
+			} else if op.Kind != "online" && op.Kind != "offline" && !w.mutedOnLive(op.Kind) {
 				w.Violate("C11", "call-never-returns#"+op.Kind, "%s op %d (%s) has not returned at quiescence; thread at %s", a.spec.Name, a.pc, op.Kind, a.th.site)
 			}
 		}
@@ -218,6 +218,9 @@ func (w *World) monitorRequests() {
 							}
 						}
 					}
+					if ans == nil && w.hostileBetween(mine.conn.id, mine.end, to) {
+						continue // answered by bytes outside the conforming broker's repertoire: C13 judges those
+					}
 					if ans == nil {
 						w.Violate("C11", "response-without-answer", "%s op %d (%s id %#04x) returned %s although the broker never answered that identifier on c%d", a.spec.Name, r.Idx, op.Kind, mine.p.ID, cl, mine.conn.id)
 						continue
@@ -253,7 +256,7 @@ func (w *World) monitorRequests() {
 							pong = true
 						}
 					}
-					if !pong {
+					if !pong && !w.hostileBetween(mine.conn.id, mine.end, to) {
 						w.Violate("C11", "ping-without-pong", "%s op %d: Ping returned nil without a PINGRESP after its PINGREQ", a.spec.Name, r.Idx)
 					}
 				}
@@ -370,6 +373,36 @@ func (w *World) monitorProgressAs(prop string) {
 			}
 		}
 	}
+}
+
+// hostileBetween: the scenario's hostile byte string went out on that
+// connection within the log range.
+func (w *World) hostileBetween(conn, from, to int) bool {
+	for _, e := range w.log[from:to] {
+		if e.K == "bk-hostile" && e.C == conn {
+			return true
+		}
+	}
+	return false
+}
+
+// mutedOnLive: the scenario's broker withheld the answer to a request of this
+// kind on the connection that is still alive: the call cannot return yet.
+func (w *World) mutedOnLive(kind string) bool {
+	live := w.liveConn()
+	if live == nil {
+		return false
+	}
+	typ := map[string]int{"ping": tPINGREQ, "sub": tSUBSCRIBE, "sub0": tSUBSCRIBE, "sub1": tSUBSCRIBE, "unsub": tUNSUBSCRIBE}[kind]
+	if typ == 0 {
+		return false
+	}
+	for _, e := range w.log {
+		if e.K == "bk-mute" && e.C == live.id && e.N == typ {
+			return true
+		}
+	}
+	return false
 }
 
 // monitorUnexplainedErrors: ReadSlices may fail only for a reason. Once a
